@@ -39,12 +39,21 @@ Theorem msg_write_within_buffer_verdict :
 Proof. exact MsgBufProofs.msg_write_within_buffer_verdict. Qed.
 Print Assumptions msg_write_within_buffer_verdict.
 
-(* on the pinned tree `msg_write_within_buffer` is FALSE: prefix "<stdin>:1: error: " (18) and a
-   1100-character body; replayed on the real compiler under ASan by checks/c05.py *)
-Theorem msg_write_within_buffer_refuted :
-  exists p b, (0 <= p < MSG_BUF_SIZE)%Z /\ (0 <= b)%Z /\ ~ writes_within_buffer p b.
-Proof. exact MsgBufPinned.msg_write_within_buffer_refuted. Qed.
-Print Assumptions msg_write_within_buffer_refuted.
+(* msg_write_within_buffer, for the current tree and ALL prefix and body lengths (the prefix may
+   be longer than the buffer: module names are not bounded): every write stays inside msg_buf *)
+Theorem msg_write_within_buffer : forall p b, (0 <= p)%Z -> (0 <= b)%Z -> writes_within_buffer p b.
+Proof. exact MsgBufPinned.msg_write_within_buffer. Qed.
+Print Assumptions msg_write_within_buffer.
+
+(* the arithmetic print_msg had before the fix commit (vsnprintf given MAX_MSG_SIZE whatever
+   msg_len is) overruns the buffer: prefix "<stdin>:1: error: " (18) and a 1100-character body.
+   Kept so that the statement above is seen to discriminate; this witness was replayed on the real
+   compiler under ASan (1100-character identifier) while the tree still had that arithmetic. *)
+Theorem msg_unbounded_body_limit_refuted :
+  exists p b, (0 <= p < MSG_BUF_SIZE)%Z /\ (0 <= b)%Z /\
+              within_buffer_with (fun _ => MAX_MSG_SIZE) p b = false.
+Proof. exact MsgBufPinned.msg_unbounded_body_limit_refuted. Qed.
+Print Assumptions msg_unbounded_body_limit_refuted.
 
 (* ---- slice 2: the `use` include stack (front/scanner.l) ------------------------------------ *)
 
@@ -75,5 +84,5 @@ Print Assumptions outcome_classifier_correct.
 (* hypotheses are satisfiable / the definitions are not vacuous *)
 Example c05_ex_use : u_ptr (use_run [EUse 1 true; EUse 2 false; EEof]) = 0%Z.
 Proof. reflexivity. Qed.
-Example c05_ex_msg_safe : within_buffer 18 1005 = true /\ within_buffer 18 1006 = false.
+Example c05_ex_msg_safe : within_buffer 18 1005 = true /\ within_buffer 18 100000 = true.
 Proof. split; vm_compute; reflexivity. Qed.
